@@ -205,6 +205,9 @@ func checkC10(c *core.Ctx) {
 		`query A { ...F } query B { ...G } fragment F on Query { ...G x: i } fragment G on Query { ... on Query { ...F x: j } }`,
 		// every spread of the cycle hidden inside an inline fragment (no fragment definition holds a spread directly or
 		// under plain fields), a conflicting sibling after it
+		// cycles no operation reaches
+		`{ i } fragment F1 on Query { ... on Query { x: i ...F2 } } fragment F2 on Query { ...F1 x: j }`,
+		`{ i } fragment F1 on Query { q { ...F2 x: i } } fragment F2 on Query { ...F1 q { x: j(a: 1) } } fragment F3 on Query { ...F1 ...F3 }`,
 		`{ ...A } fragment A on Query { q { x: i ... on Query { ...A } } x: j(a: 1) }`,
 		`{ q { ...A } } fragment A on Query { l { x: i ... { ...B } } x: j } fragment B on Query { ... on Query { q { ...A } x: j(a: 2) } x: i }`,
 		`{ ...A } fragment A on Query { ... on Query { ... on Query { ...A } } q { x: i } q { x: j } }`,
